@@ -12,7 +12,7 @@ THEOREMS = ['Otel.C04.' + t for t in (
     'status_is_last_set', 'kind_start_resource_scope', 'duration_eq_end_minus_start', 'duration_clock',
     'convert_matches_source', 'every_alternative_modelled', 'owned_index_valid', 'convert_keeps_content',
     'spanKind_statusCode_counts')] + [
-    'Otel.Attr.Map.lookup_foldl_setAttribute', 'Otel.Attr.Map.nodup_foldl_setAttribute', 'Otel.Attr.Map.lookup_ofIterable']
+    'Otel.SAttr.Map.lookup_foldl_setAttribute', 'Otel.SAttr.Map.nodup_foldl_setAttribute', 'Otel.SAttr.Map.lookup_ofIterable']
 H = 's_c04'
 H2 = 's_c04_v2'   # the same harness source built with OPENTELEMETRY_ABI_VERSION_NO=2 (Span::AddLink / AddLinks exist): engine word `span2`
 _SRCS = sdk_sources('common', 'resource', 'version', 'trace')
